@@ -1,11 +1,11 @@
 package govc
 
 import (
-	"strconv"
 	"fmt"
 	"go/types"
 	"os"
 	"sort"
+	"strconv"
 	"strings"
 	"time"
 
@@ -13,25 +13,25 @@ import (
 )
 
 type UnitOpts struct {
-	WantTerm   bool
-	UseCands   bool
-	MaxPaths   int
-	FloatMode  *FloatMode
-	SafetyOnly bool // ignore ensures (zero-annotation sweep still uses requires + loop invariants)
+	WantTerm      bool
+	UseCands      bool
+	MaxPaths      int
+	FloatMode     *FloatMode
+	SafetyOnly    bool     // ignore ensures (zero-annotation sweep still uses requires + loop invariants)
 	ExtraRequires []string // additional preconditions (known-finding exclusions)
 }
 
 type UnitResult struct {
-	Key          string
-	Unit         *Unit
-	Obligations  []*Obligation
-	Refused      string
-	Rounds       int
-	CandsKept    int
-	CandsDropped int
-	Seconds      float64
-	CanaryOK     int
-	CanaryBad    int // return paths whose path condition is unsatisfiable (vacuity)
+	Key           string
+	Unit          *Unit
+	Obligations   []*Obligation
+	Refused       string
+	Rounds        int
+	CandsKept     int
+	CandsDropped  int
+	Seconds       float64
+	CanaryOK      int
+	CanaryBad     int // return paths whose path condition is unsatisfiable (vacuity)
 	CanaryUnknown int
 }
 
